@@ -353,6 +353,11 @@ def feval(e, env):
             if bits is None:
                 raise EvalUnknown('reinterpretation of %r' % (v,))
             return F(W, bits) if m.group(1) == 'f' else bits
+        if e.x in ('__builtin_inff', '__builtin_inf', '__builtin_huge_valf', '__builtin_huge_val', '__builtin_infl') and not args:
+            W_ = 32 if e.x.endswith('ff') or e.x.endswith('valf') else 64
+            return F(W_, ((1 << FMT[W_][0]) - 1) << FMT[W_][1])
+        if e.x in ('__builtin_nanf', '__builtin_nan') :
+            return 'nan:%d' % (32 if e.x.endswith('nanf') else 64)
         if e.x in ('__builtin_signbit', '__builtin_signbitf', '__builtin_signbitl', 'signbit') and len(args) == 1:
             if isinstance(args[0], str):
                 raise EvalUnknown('sign of an unspecified NaN')
@@ -473,6 +478,13 @@ def float_grid(W):
               1, top | 1, (1 << fb) - 1, 1 << fb, (1 << fb) | top,    # subnormals, smallest normal
               expm - 1, (expm - 1) | top):                            # largest finite
         bits.add(b & ((1 << W) - 1))
+    if W == 64:
+        # binary32 overflow and underflow thresholds seen from binary64 (demotion): FLT_MAX, the rounding midpoint 2^128 - 2^103 and
+        # their neighbours; the smallest subnormal 2^-149, the tie 2^-150 and its neighbours
+        for b in (0x47EFFFFFE0000000, 0x47EFFFFFE0000001, 0x47EFFFFFE8000000, 0x47EFFFFFEFFFFFFF, 0x47EFFFFFF0000000, 0x47EFFFFFF0000001,
+                  0x47F0000000000000, 0x36A0000000000000, 0x3690000000000000, 0x3690000000000001, 0x368FFFFFFFFFFFFF, 0x36A8000000000000,
+                  0x3810000000000000, 0x380FFFFFFFFFFFFF, 0x3FF0000010000000, 0x3FF0000010000001, 0x3FF0000030000000):
+            bits |= {b, b | top}
     # neighbours of the integer conversion boundaries
     for x in (-2147483648.0, -2147483649.0, -9223372036854775808.0, -1.0, -0.9999999, -0.5):
         b = from_py(x, W)[2]
